@@ -479,7 +479,96 @@ def common_rule(chk, db):
         chk.analysis_broken("COMMON: only %d mixed-type binary duration operators found (floor 6)" % n)
 
 
-META_EXTRA = 'CAST / CONV (conversion arithmetic skeleton count*num/den in the common type; kernel selection); ROUND (floor/ceil/round evaluated as decision procedures, sign-robust parity); COMMON (tick counts read only from operands converted to the common duration); PARAM.'
+def units_rule(chk, db):
+    """UNITS: tick counts of two different duration types are never compared, added, subtracted or divided with each other.
+    Every expression gets the type tag of the duration it measures: a parameter its declared duration / time_point type,
+    `x.time_since_epoch()` the tag of x, `CD(x)` / `duration_cast<CD>(x)` / a local declared `CD` the tag CD, `x.count()` a
+    number in the unit of x. A binary operator on two numbers with different known tags mixes units (`lhs.count() ==
+    rhs.count()` with lhs in seconds and rhs in minutes)."""
+    n = 0
+    ops = ("==", "!=", "<", "<=", ">", ">=", "+", "-", "%", "/", "<=>")
+    for f in db.funcs:
+        if not f["file"].startswith("_chrono/") or f.get("body") is None:
+            continue
+        ptag = {}
+        for p0 in f["params"]:
+            t = p0["ty"].replace("const ", "").replace("&", "").strip()
+            if p0.get("n") and ("duration" in t or "time_point" in t or t in ("Duration", "ToDuration", "Dur", "Dur1", "Dur2")):
+                ptag[p0["n"]] = t
+        if not ptag:
+            continue
+        local = {}
+        for st in astx.walk_stmts(f.get("body")):
+            if st.get("k") == "decl":
+                for v in st["vars"]:
+                    if "other" not in v and v.get("init") is not None:
+                        local[v["n"]] = v
+
+        def tag(e, depth=0):
+            """('obj'|'num', tag) or None"""
+            e0 = e
+            while e0 is not None and e0.get("k") == "paren":
+                e0 = e0.get("e")
+            if e0 is None or depth > 6:
+                return None
+            k = e0.get("k")
+            if k in ("cast", "construct") and e0.get("ty"):
+                ty = e0["ty"].replace("const ", "").replace("&", "").strip()
+                inner = e0.get("e") if k == "cast" else (e0["a"][0] if len(e0.get("a", [])) == 1 else None)
+                it = tag(inner, depth + 1) if inner is not None else None
+                if it and it[0] == "num":
+                    return ("num", it[1]) if not any(w in ty for w in ("duration", "Duration", "Dur", "CD", "CT")) else ("obj", ty)
+                if it and it[0] == "obj":
+                    return ("obj", ty)
+                return None
+            if k == "ref":
+                nme = e0["n"]
+                if nme in ptag:
+                    return ("obj", ptag[nme])
+                if nme in local:
+                    v = local[nme]
+                    ty = (v.get("ty") or "").replace("const ", "").replace("&", "").strip()
+                    it = tag(v["init"], depth + 1)
+                    if it and it[0] == "obj" and ty and "auto" not in ty:
+                        return ("obj", ty)
+                    return it
+                return None
+            if k == "call":
+                nm, q, recv, kind = astx.callee(e0)
+                if kind == "member" and nm == "count" and not e0["a"]:
+                    it = tag(recv, depth + 1)
+                    return ("num", it[1]) if it and it[0] == "obj" else None
+                if kind == "member" and nm == "time_since_epoch" and not e0["a"]:
+                    it = tag(recv, depth + 1)
+                    return ("obj", it[1]) if it and it[0] == "obj" else None
+                if nm in ("duration_cast", "time_point_cast", "floor", "ceil", "round") and len(e0["a"]) == 1:
+                    ta = (e0["f"].get("targs") or "").strip()
+                    it = tag(e0["a"][0], depth + 1)
+                    if ta and it:
+                        return ("obj", ta)
+                    return None
+            return None
+        sites = []
+        for x in astx.all_exprs(f):
+            if x.get("k") == "bin" and x["op"] in ops:
+                a, b = tag(x["l"]), tag(x["r"])
+                if a and b and a[0] == "num" and b[0] == "num":
+                    sites.append((x, a[1], b[1]))
+        if not sites:
+            continue
+        n += 1
+        construct = astx.sig(f)
+        chk.instance("UNITS")
+        bad = [t for t in sites if t[1].replace(" ", "") != t[2].replace(" ", "")]
+        chk.obligation("UNITS", construct, not bad, evaluations=len(sites))
+        for x, ta, tb in bad[:1]:
+            chk.violation("UNITS", construct, "mixed-units", "%s: `%s` combines a tick count in units of `%s` with one in units of `%s`" % (
+                astx.loc(f, x), astx.show(x, 70), ta, tb), {"where": astx.loc(f)})
+    if n < 3:
+        chk.analysis_broken("UNITS: only %d chrono functions that combine two tick counts found (floor 3)" % n)
+
+
+META_EXTRA = 'CAST / CONV (conversion arithmetic skeleton count*num/den in the common type; kernel selection); ROUND (floor/ceil/round evaluated as decision procedures, sign-robust parity); COMMON (tick counts read only from operands converted to the common duration); UNITS (type-tagged tick counts: no operator combines counts of two different duration types); PARAM.'
 META = (META[0] + " " + META_EXTRA, META[1])
 
 
@@ -491,6 +580,7 @@ def run(chk, tier):
     cast_rule(chk, db)
     conv_rule(chk, db)
     common_rule(chk, db)
+    units_rule(chk, db)
     round_rule(chk, db)
     tus, info = gen.generate(quick)
     res = wit.compile_many(tus, compiler="g++", jobs=16)
